@@ -198,6 +198,16 @@ def _gen_tri(rng, tier):
 
 
 def build_base(rec):
+    g = _build_base(rec)
+    if rec.get("int_nodes") and g.dim > 0 and np.all(g.nodes == np.round(g.nodes)):
+        # the same grid with an INTEGER node array (pp.Grid keeps the dtype it is given, as in
+        # the library's own extrusion tests)
+        g = pp.Grid(g.dim, g.nodes.astype(int), g.face_nodes, g.cell_faces, "integer nodes")
+        g.compute_geometry()
+    return g
+
+
+def _build_base(rec):
     k = rec["kind"]
     if k == "point":
         g = pp.PointGrid(np.array(rec["p"], dtype=float))
@@ -275,8 +285,8 @@ class C23(Prop):
             "shuffled node/cell numbering, 35% with independently permuted node, face and cell numbering "
             "(face_nodes not the identity), ratios 1-5), remesh 12% (same grids, a third of them after "
             "refine_grid_1d), reftri 25% (structured triangle grids, "
-            "perturbed, and Delaunay triangulations of random dyadic points), sr 15% (1-D nested, shifted "
-            "non-nested and 2-D nested pairs), extrude 23% (0/1/2-D bases incl. permuted numberings and subdomains of real md-grids with "
+            "perturbed, and Delaunay triangulations of random dyadic points), sr 15% (1-D nested, shifted, 80% of the coarse and half of the fine grids with permuted node/face/cell numbering, "
+            "non-nested and 2-D nested pairs), extrude 23% (0/1/2-D bases incl. integer-dtype node arrays, permuted numberings and subdomains of real md-grids with "
             "crossing fractures, 1-4 layers, increasing "
             "non-negative or decreasing non-positive z, mixed-sign error inputs). non-trivial = more than "
             "one parent cell or ratio/layers > 1; a third of all grids in other units: coordinates "
@@ -306,9 +316,12 @@ class C23(Prop):
     def _gen_sr(self, rng, tier):
         r = rng.random()
         if r < 0.7:
-            rec = gen_1d(rng, tier, embed=False, renumber=rng.random() < 0.3)
+            rec = gen_1d(rng, tier, embed=False, renumber=rng.random() < 0.8)
             mode = rng.choice(["nested", "nested", "nested", "shifted", "same"])
-            return {"kind": "sr1d", "grid": rec, "ratio": rng.choice([2, 3, 4]), "mode": mode}
+            case = {"kind": "sr1d", "grid": rec, "ratio": rng.choice([2, 3, 4]), "mode": mode}
+            if rng.random() < 0.5:
+                case["fine_renum_seed"] = rng.randint(0, 10**6)   # permuted numbering of the fine grid
+            return case
         return {"kind": "sr2d", "grid": gen_tri(rng, tier)}
 
     def _gen_extrude(self, rng, tier):
@@ -347,6 +360,10 @@ class C23(Prop):
                 base["renum"] = gen_renum(rng, build_base(base))
         else:
             base = {"kind": "tri", "rec": gen_tri(rng, tier, affine=aff)}
+        if rng.random() < 0.5:
+            # integer-dtype node arrays (effective when the coordinates are integral) with
+            # fractional layer heights
+            base["int_nodes"] = True
         k = rng.randint(1, 4)
         z = [rng.choice([0.0, 0.0, 0.5, 1.0])]
         for _ in range(k):
@@ -363,6 +380,13 @@ class C23(Prop):
 
     # -------------------------------------------------------------------------------
     def _fine_1d(self, case):
+        g, h = self._fine_1d_plain(case)
+        if case.get("fine_renum_seed") is not None and case["mode"] != "same":
+            import random
+            h = renumbered_grid(h, gen_renum(random.Random(case["fine_renum_seed"]), h))
+        return g, h
+
+    def _fine_1d_plain(self, case):
         g = build_1d(case["grid"])
         if case["mode"] == "nested":
             return g, rf.refine_grid_1d(g, case["ratio"])
